@@ -401,6 +401,24 @@ pub fn capacity_check(thorough: bool) -> (Vec<Issue>, u64) {
 /// history step by step and print what every step's oracle says
 pub fn replay(v: &Value) -> i32 {
     let prop = v["property"].as_str().unwrap_or("");
+    let want0 = v["signature"].as_str().unwrap_or("");
+    if want0.starts_with("unmerged/") || want0.starts_with("scale/") {
+        // these come from the explicit enumerations attached to C06: run them again and look for the signature
+        let thorough = v["tier"].as_str() == Some("thorough");
+        let mut is = capacity_check(thorough).0;
+        is.extend(unmerged_check(if thorough { 4 } else { 3 }).0);
+        let hit = is.iter().find(|i| i.sig == want0);
+        match hit {
+            Some(i) => {
+                println!("{} :: {}\nREPRODUCED", i.sig, i.detail);
+                return 1;
+            }
+            None => {
+                println!("not reproduced");
+                return 0;
+            }
+        }
+    }
     let label = v["configuration"].as_str().unwrap_or("");
     let hist: Vec<u16> = v["history_action_indices"].as_array().map(|a| a.iter().map(|x| x.as_u64().unwrap() as u16).collect()).unwrap_or_default();
     let cfgs: Vec<(&str, usize, Vec<Vec<u16>>, Vec<u16>, usize)> = vec![
